@@ -81,6 +81,15 @@ def allowed(m, segs, a, b):
     return False
 
 
+def only_by_jump_back(m, segs, a, b):
+    """the step a -> b is permitted by a da capo / dal segno mark and by nothing else"""
+    ea, sb = segs[a][1], segs[b][0]
+    if not ((ea in m["dacapo"] and sb == m["first"]) or (ea in m["dalsegno"] and sb in m["segno"])):
+        return False
+    plain = dict(m, dacapo=[], dalsegno=[])
+    return not allowed(plain, segs, a, b)
+
+
 def may_end(m, segs, a):
     if segs[a][1] == m["last"] or segs[a][1] in m["fine"]:
         return True
@@ -102,9 +111,14 @@ def validate_path(m, path_ids):
         idx.append(i)
     if not idx or idx[0] != 0:
         return f"path starts with {path_ids[:1]} instead of the first segment"
+    jumped = set()
     for a, b in zip(idx, idx[1:]):
         if not allowed(m, segs, a, b):
             return f"step {seg_id(a)}{list(segs[a])} -> {seg_id(b)}{list(segs[b])} is not permitted by any mark"
+        if only_by_jump_back(m, segs, a, b):
+            if segs[a][1] in jumped:
+                return f"the da capo / dal segno at {segs[a][1]} is followed a second time (step {seg_id(a)} -> {seg_id(b)})"
+            jumped.add(segs[a][1])
     if not may_end(m, segs, idx[-1]):
         return f"path ends after {seg_id(idx[-1])}{list(segs[idx[-1]])} which is neither the last segment nor ends at a fine"
     return None
